@@ -280,6 +280,106 @@ theorem code_origin (b : Build) (conv : List Nat → Conv) (m : Mode) (s : List 
             · rename_i hbr
               right; right; right; exact ⟨hlen', hl0, by simpa using hbr, h⟩
 
+theorem utf8_range (b : Build) (conv : List Nat → Conv) (d : List Nat) (tld : Bool) (rc irc : Int)
+    (h : isUtf8Domain b conv d tld = .ok (rc, irc)) : rc = -2 ∨ -26 ≤ rc ∧ rc ≤ -16 ∨ 0 ≤ rc := by
+  unfold isUtf8Domain at h
+  split at h
+  · simp only [Except.ok.injEq, Prod.mk.injEq] at h; obtain ⟨rfl, _⟩ := h; right; left; decide
+  · simp only at h
+    split at h
+    · simp only [Except.ok.injEq, Prod.mk.injEq] at h; obtain ⟨rfl, _⟩ := h; left; rfl
+    · split at h
+      · cases h
+      · split at h
+        · cases h
+        · rename_i r hr
+          split at h
+          · simp only [Except.ok.injEq, Prod.mk.injEq] at h
+            obtain ⟨rfl, _⟩ := h
+            rcases isAsciiDomain_range _ _ _ _ hr with h | h
+            · right; right; omega
+            · right; left; omega
+          · split at h
+            · cases h
+            · rename_i t ht
+              simp only [Except.ok.injEq, Prod.mk.injEq] at h
+              obtain ⟨rfl, _⟩ := h
+              rcases C16.checkTld_range _ _ _ ht with h | h | h | h
+              · right; right; omega
+              · right; left; rw [h]; decide
+              · right; left; rw [h]; decide
+              · right; right; omega
+
+/-- codes of the host-name branch: 0, a class, IDN error, a DOMAIN code, NOT_FQDN, TLD_INVALID -/
+theorem hostPart_range (b : Build) (conv : List Nat → Conv) (m : Mode) (l d : List Nat) (tld : Bool) (r : Result)
+    (h : hostPart b conv m l d tld = .ok r) : r.rc = -2 ∨ -26 ≤ r.rc ∧ r.rc ≤ -16 ∨ 0 ≤ r.rc := by
+  unfold hostPart at h
+  have ascii : ∀ {r : Result}, (match isAsciiDomain b.underscore d [0] with
+      | .error e => .error e
+      | .ok rc => if (rc == 0) = true then
+          match checkTld d tld with
+          | .error e => .error e
+          | .ok t => .ok (okResult b t 0 false false true l d)
+        else .ok { rc := rc }) = Except.ok r → (r.rc = -2 ∨ -26 ≤ r.rc ∧ r.rc ≤ -16 ∨ 0 ≤ r.rc) := by
+    intro r h
+    split at h
+    · cases h
+    · rename_i rc hrc
+      split at h
+      · split at h
+        · cases h
+        · rename_i t ht
+          simp only [Except.ok.injEq] at h; subst h
+          simp only [okResult]
+          rcases C16.checkTld_range _ _ _ ht with h | h | h | h
+          · right; right; omega
+          · right; left; rw [h]; decide
+          · right; left; rw [h]; decide
+          · right; right; omega
+      · simp only [Except.ok.injEq] at h; subst h
+        rcases isAsciiDomain_range _ _ _ _ hrc with h | h
+        · right; right; simp only; omega
+        · right; left; simp only; omega
+  cases m with
+  | m6531 =>
+    simp only at h
+    split at h
+    · cases h
+    · rename_i rc irc hu
+      have hr := utf8_range b conv d tld rc irc hu
+      split at h <;> (simp only [Except.ok.injEq] at h; subst h) <;> simp [okResult] <;> omega
+  | m822 => exact ascii h
+  | m5321 => exact ascii h
+  | m5322 => exact ascii h
+theorem literalPart_lower (b : Build) (l d : List Nat) (r : Result) (h : literalPart b l d = .ok r) : r.rc = 0 ∨ r.rc = -24 ∨ r.rc = -25 := by
+  unfold literalPart at h
+  split at h
+  · cases h
+  · rename_i rc v4 v6 lit hc
+    split at h
+    · simp only [Except.ok.injEq] at h; subst h; left; rfl
+    · simp only [Except.ok.injEq] at h; subst h
+      simp only
+      unfold checkIp at hc
+      have iv : ∀ {x v4' v6' inner}, ipVerdict x v4' v6' inner = .ok (rc, v4, v6, lit) → rc = 0 ∨ rc = -24 ∨ rc = -25 := by
+        intro x v4' v6' inner hx
+        unfold ipVerdict at hx
+        split at hx
+        · cases hx
+        · simp only [Except.ok.injEq, Prod.mk.injEq] at hx; left; exact hx.1.symm
+        · simp only [Except.ok.injEq, Prod.mk.injEq] at hx; right; left; exact hx.1.symm
+      split at hc
+      · simp only [Except.ok.injEq, Prod.mk.injEq] at hc; right; left; exact hc.1.symm
+      · split at hc
+        · simp only [Except.ok.injEq, Prod.mk.injEq] at hc; right; right; exact hc.1.symm
+        · split at hc
+          · simp only [Except.ok.injEq, Prod.mk.injEq] at hc; right; left; exact hc.1.symm
+          · simp only at hc
+            split at hc
+            · exact iv hc
+            · split at hc <;> exact iv hc
+
+
 /-- **'too long' only above 64 octets; 'empty' only for the empty string; a local-part code only if the local part
 really is invalid for the mode** (modes 822/5321/5322: not `word *("." word)`; mode 6531: not well-formed UTF-8
 whose characters form an RFC 5321 local part) -/
@@ -328,104 +428,38 @@ theorem lpart_code_sound (b : Build) (hb : b.rfc20 = false ∧ b.rfc5322 = false
       have := C01.literalPart_rc b L D r hh
       have hlo := literalPart_lower b L D r hh
       omega
-where
-  /-- codes of the host-name branch: 0, a class, IDN error, a DOMAIN code, NOT_FQDN, TLD_INVALID -/
-  hostPart_range (b : Build) (conv : List Nat → Conv) (m : Mode) (l d : List Nat) (tld : Bool) (r : Result)
-      (h : hostPart b conv m l d tld = .ok r) : r.rc = -2 ∨ -26 ≤ r.rc ∧ r.rc ≤ -16 ∨ 0 ≤ r.rc := by
-    unfold hostPart at h
-    have ascii : ∀ {r : Result}, (match isAsciiDomain b.underscore d [0] with
-        | .error e => .error e
-        | .ok rc => if (rc == 0) = true then
-            match checkTld d tld with
-            | .error e => .error e
-            | .ok t => .ok (okResult b t 0 false false true l d)
-          else .ok { rc := rc }) = Except.ok r → (r.rc = -2 ∨ -26 ≤ r.rc ∧ r.rc ≤ -16 ∨ 0 ≤ r.rc) := by
-      intro r h
-      split at h
-      · cases h
-      · rename_i rc hrc
-        split at h
-        · split at h
-          · cases h
-          · rename_i t ht
-            simp only [Except.ok.injEq] at h; subst h
-            simp only [okResult]
-            rcases C16.checkTld_range _ _ _ ht with h | h | h | h
-            · right; right; omega
-            · right; left; rw [h]; decide
-            · right; left; rw [h]; decide
-            · right; right; omega
-        · simp only [Except.ok.injEq] at h; subst h
-          rcases isAsciiDomain_range _ _ _ _ hrc with h | h
-          · right; right; simp only; omega
-          · right; left; simp only; omega
-    cases m with
-    | m6531 =>
-      simp only at h
-      split at h
-      · cases h
-      · rename_i rc irc hu
-        have hr := utf8_range b conv d tld rc irc hu
-        split at h <;> (simp only [Except.ok.injEq] at h; subst h) <;> simp [okResult] <;> omega
-    | m822 => exact ascii h
-    | m5321 => exact ascii h
-    | m5322 => exact ascii h
-  utf8_range (b : Build) (conv : List Nat → Conv) (d : List Nat) (tld : Bool) (rc irc : Int)
-      (h : isUtf8Domain b conv d tld = .ok (rc, irc)) : rc = -2 ∨ -26 ≤ rc ∧ rc ≤ -16 ∨ 0 ≤ rc := by
-    unfold isUtf8Domain at h
-    split at h
-    · simp only [Except.ok.injEq, Prod.mk.injEq] at h; obtain ⟨rfl, _⟩ := h; right; left; decide
-    · simp only at h
-      split at h
-      · simp only [Except.ok.injEq, Prod.mk.injEq] at h; obtain ⟨rfl, _⟩ := h; left; rfl
-      · split at h
-        · cases h
-        · split at h
-          · cases h
-          · rename_i r hr
-            split at h
-            · simp only [Except.ok.injEq, Prod.mk.injEq] at h
-              obtain ⟨rfl, _⟩ := h
-              rcases isAsciiDomain_range _ _ _ _ hr with h | h
-              · right; right; omega
-              · right; left; omega
-            · split at h
-              · cases h
-              · rename_i t ht
-                simp only [Except.ok.injEq, Prod.mk.injEq] at h
-                obtain ⟨rfl, _⟩ := h
-                rcases C16.checkTld_range _ _ _ ht with h | h | h | h
-                · right; right; omega
-                · right; left; rw [h]; decide
-                · right; left; rw [h]; decide
-                · right; right; omega
-  literalPart_lower (b : Build) (l d : List Nat) (r : Result) (h : literalPart b l d = .ok r) : r.rc = 0 ∨ r.rc = -24 ∨ r.rc = -25 := by
-    unfold literalPart at h
-    split at h
-    · cases h
-    · rename_i rc v4 v6 lit hc
-      split at h
-      · simp only [Except.ok.injEq] at h; subst h; left; rfl
-      · simp only [Except.ok.injEq] at h; subst h
-        simp only
-        unfold checkIp at hc
-        have iv : ∀ {x v4' v6' inner}, ipVerdict x v4' v6' inner = .ok (rc, v4, v6, lit) → rc = 0 ∨ rc = -24 ∨ rc = -25 := by
-          intro x v4' v6' inner hx
-          unfold ipVerdict at hx
-          split at hx
-          · cases hx
-          · simp only [Except.ok.injEq, Prod.mk.injEq] at hx; left; exact hx.1.symm
-          · simp only [Except.ok.injEq, Prod.mk.injEq] at hx; right; left; exact hx.1.symm
-        split at hc
-        · simp only [Except.ok.injEq, Prod.mk.injEq] at hc; right; left; exact hc.1.symm
-        · split at hc
-          · simp only [Except.ok.injEq, Prod.mk.injEq] at hc; right; right; exact hc.1.symm
-          · split at hc
-            · simp only [Except.ok.injEq, Prod.mk.injEq] at hc; right; left; exact hc.1.symm
-            · simp only at hc
-              split at hc
-              · exact iv hc
-              · split at hc <;> exact iv hc
+/-- every result code of `is_*_email` is 0, a class, or one of the error codes (so it indexes `errors[]`) -/
+theorem rc_lower (b : Build) (conv : List Nat → Conv) (m : Mode) (s : List Nat) (tld : Bool) (r : Result)
+    (h : isEmail b conv m s tld = .ok r) : -26 ≤ r.rc := by
+  by_cases hneg : r.rc < 0
+  · rcases code_origin b conv m s tld r h hneg with ⟨h1, _⟩ | ⟨h1, _⟩ | ⟨L, D, _, _, _, hcase⟩
+    · rw [h1]; decide
+    · rw [h1]; decide
+    · rcases hcase with ⟨h1, _⟩ | ⟨_, h1, _⟩ | ⟨_, _, _, hh⟩ | ⟨_, _, _, hh⟩
+      · rw [h1]; decide
+      · have := localOf_range b m L
+        rw [← h1] at this
+        rcases this with h | h | h <;> omega
+      · have := hostPart_range b conv m L D tld r hh
+        omega
+      · have := literalPart_lower b L D r hh
+        omega
+  · omega
+
+/-- the recorded error code is always an index into `errors[]` -/
+theorem errcode_lt_max (k : Nat) (r : Result) (ret : Int) (ec : Nat) (msg : Option Int)
+    (h : verdictOf k r = .ok (ret, ec, msg)) (hlo : -35 ≤ r.rc) (hhi : r.rc ≤ 9) : ec < E.MAX := by
+  have hs := verdict_shape k r ret ec msg h
+  simp only [E.MAX]
+  by_cases hneg : r.rc < 0
+  · have := hs.2.2.1 hneg; omega
+  · rcases hs.1 with h1 | h0
+    · have := hs.2.1.mp h1; omega
+    · by_cases hz : r.rc = 0
+      · unfold verdictOf at h
+        simp [hz] at h
+        omega
+      · have := hs.2.2.2.1 (by omega) h0; omega
 
 /-! ### 'too many dots' only if the local part contains `..` -/
 
@@ -662,7 +696,7 @@ theorem domain_code_sound (b : Build) (conv : List Nat → Conv) (m : Mode) (hm 
               intro hhost
               exact hne (by have := (C04.host_iff _ D hnD).mpr hhost; rw [hrc] at this; simpa using this)
     · -- literal
-      have hl := lpart_code_sound.literalPart_lower b L D r hh
+      have hl := literalPart_lower b L D r hh
       rcases hl with h0 | h24 | h25
       · omega
       · right; right; right; left; exact ⟨h24, hbr⟩
